@@ -971,23 +971,37 @@ func TestVerifC11Stages(t *testing.T) {
 		return
 	}
 
-	depth := vreport.Pick(4, 5)      // events of a history, the run included
-	bound := vreport.Pick(1, 2)      // preemptions below a sequential history
-	pairBound := vreport.Pick(1, 2)  // preemptions below a history whose last two events are delivered together
-	cfgs := []struct {
-		cfg   c11sCfg
-		depth int
-	}{
-		{c11sCfg{}, depth},
-		{c11sCfg{BeforeErr: 1}, depth - 1},
-		{c11sCfg{GracefulErr: 1}, depth - 1},
-		{c11sCfg{GracefulErr: 2}, depth - 1},
-		{c11sCfg{NilHandler: true}, depth - 1},
-		{c11sCfg{FromUpgrade: true}, depth - 1},
-		{c11sCfg{InitErr: true}, 2},
-		{c11sCfg{InitErr: true, FromUpgrade: true}, 2},
-		{c11sCfg{InheritErr: true}, 2},
-		{c11sCfg{InheritErr: true, FromUpgrade: true}, 2},
+	// bounds per configuration: depth = events of a history (the run included), bound = deviations below a
+	// history (sequential or ending in a pair), pairs = every event also with a second one delivered together
+	type plan struct {
+		cfg          c11sCfg
+		depth, bound int
+		pairs        bool
+	}
+	var cfgs []plan
+	startFail := []c11sCfg{{InitErr: true}, {InitErr: true, FromUpgrade: true}, {InheritErr: true}, {InheritErr: true, FromUpgrade: true}}
+	others := []c11sCfg{{BeforeErr: 1}, {GracefulErr: 1}, {GracefulErr: 2}, {NilHandler: true}, {FromUpgrade: true}}
+	if !vreport.Thorough() {
+		cfgs = append(cfgs, plan{c11sCfg{}, 4, 1, true})
+		for _, c := range others {
+			cfgs = append(cfgs, plan{c, 3, 1, false})
+		}
+		for _, c := range startFail {
+			cfgs = append(cfgs, plan{c, 2, 1, true})
+		}
+	} else {
+		// the small configurations first: the plain one takes what is left of the budget
+		for _, c := range startFail {
+			cfgs = append(cfgs, plan{c, 3, 2, true})
+		}
+		for _, c := range others {
+			cfgs = append(cfgs, plan{c, 3, 2, true})
+		}
+		cfgs = append(cfgs, plan{c11sCfg{}, 4, 2, true})
+	}
+	boundText := "plain configuration: histories of <= 4 events, <= 1 deviation; callback-error / nil-handler / from-upgrade configurations: <= 3 events, no pairs, <= 1 deviation; start-failure configurations: <= 2 events, <= 1 deviation"
+	if vreport.Thorough() {
+		boundText = "plain configuration: histories of <= 4 events (the end states of pairs join the frontier), <= 2 deviations; every other configuration: <= 3 events, <= 2 deviations"
 	}
 	complete := true
 	type node struct {
@@ -1013,7 +1027,7 @@ func TestVerifC11Stages(t *testing.T) {
 						break
 					}
 					h := append(append([]c11sEvt(nil), n.hist...), c11sEvt{Name: e})
-					r := c11sExplore(p, c11sCase{Cfg: cf.cfg, Events: h, Bound: bound}, false, maxPerCase)
+					r := c11sExplore(p, c11sCase{Cfg: cf.cfg, Events: h, Bound: cf.bound}, false, maxPerCase)
 					if !r.complete {
 						complete = false
 						p.Count("histories_with_schedule_cap_hit", 1)
@@ -1024,9 +1038,8 @@ func TestVerifC11Stages(t *testing.T) {
 						p.AddStates(1)
 						next = append(next, node{h, r.def})
 					}
-					// the same event with a second one delivered together with it (quick: in the plain
-					// configuration only)
-					if d+1 > cf.depth || e == "tick" || (!vreport.Thorough() && cf.cfg != (c11sCfg{})) {
+					// the same event with a second one delivered together with it
+					if d+1 > cf.depth || e == "tick" || !cf.pairs {
 						continue
 					}
 					for _, e2 := range c11sAlphabet {
@@ -1041,7 +1054,7 @@ func TestVerifC11Stages(t *testing.T) {
 							break
 						}
 						h2 := append(append([]c11sEvt(nil), h...), c11sEvt{Name: e2, With: true})
-						r2 := c11sExplore(p, c11sCase{Cfg: cf.cfg, Events: h2, Bound: pairBound}, false, maxPerCase)
+						r2 := c11sExplore(p, c11sCase{Cfg: cf.cfg, Events: h2, Bound: cf.bound}, false, maxPerCase)
 						if !r2.complete {
 							complete = false
 							p.Count("histories_with_schedule_cap_hit", 1)
@@ -1063,6 +1076,6 @@ func TestVerifC11Stages(t *testing.T) {
 		p.Count("frontier_states_not_expanded", len(frontier))
 	}
 	p.End(complete,
-		fmt.Sprintf("histories of <= %d events (the run included; <= %d for the callback-error / nil-handler / from-upgrade configurations, 2 for the start-failure ones) over {run, term, quit, hup+, hup-, int, up+, up-, tick}, at most one notice before the run, every pair of events also delivered together (quick: in the plain configuration only); below every sequential history all schedules with <= %d preemptions, below every history ending in a pair all with <= %d", depth, depth-1, bound, pairBound),
+		"events {run, term, quit, hup+, hup-, int, up+, up-, tick}, at most one notice before the run, every pair of events also delivered together where stated; "+boundText,
 		"breadth-first over histories with canonical-state de-duplication (state = key() of the default-schedule execution at the end of the history; successors by replaying history + event on a fresh StageManager); every execution is one (history, schedule) and is judged on its own record; distinct = (configuration, history, end state); outcome = (end state, how the process ended)")
 }
